@@ -357,7 +357,10 @@ def rule_callers(rep: Report, idx: SourceIndex) -> None:
 			rest_join = isinstance(e, ast.Call) and isinstance(e.func, ast.Attribute) and e.func.attr == 'join' and const_str(e.func.value) == '=' and e.args and ('[1:]' in unparse(e.args[0]))
 			tail = any(isinstance(x, ast.Subscript) and unparse(x.value) == par and isinstance(x.slice, ast.Slice) and x.slice.upper is None and x.slice.lower is not None and any(isinstance(y, ast.Call) and isinstance(y.func, ast.Attribute) and y.func.attr in ('index', 'find') and y.args and const_str(y.args[0]) == '=' for y in ast.walk(x.slice.lower)) for x in ast.walk(e))
 			rtail = any(isinstance(y, ast.Call) and isinstance(y.func, ast.Attribute) and y.func.attr in ('rindex', 'rfind', 'rpartition', 'rsplit') and y.args and const_str(y.args[0]) == '=' for y in ast.walk(e))
-			if rtail:
+			raw_first = any(isinstance(y, ast.Call) and isinstance(y.func, ast.Attribute) and unparse(y.func.value) == par and y.args and const_str(y.args[0]) == '=' and ((y.func.attr == 'partition') or (y.func.attr == 'split') or (y.func.attr in ('index', 'find') and len(y.args) == 1)) for y in ast.walk(e))
+			if raw_first and not rtail:
+				verdict = ('bad', e, f'the default is everything behind the FIRST `=` of the raw parameter text (`{txt[:70]}`), found without regard to brackets and quotes: for `std::enable_if_t<N == 1, int> n = 0` or `Opt<"k=v"> o = nullptr` the cut falls inside the type, so the default holds the rest of the type, the name and the real default (type and name come from the bracket-aware split and stay right, the three parts no longer reassemble)')
+			elif rtail:
 				verdict = ('bad', e, f'the default is cut at the LAST `=` of the parameter (`{txt[:70]}`): of `bool b = a == c` only `c` is kept')
 			elif one_piece:
 				verdict = ('bad', e, f'the default is the SECOND piece of break_separator(parameter, "=") alone (`{txt[:60]}`): a default that contains `=` outside brackets and quotes (`bool b = a == c`, `x <= 1`) gives more than two pieces and is dropped or truncated, so the declaration loses its default')
